@@ -238,6 +238,26 @@ def lister_type_guard(tree):
     return raise_guard(loops[0].body, lambda st: isinstance(st, ast.Assign) and src(st) == "name, info = cls.parse_line(line)", "__anext__")
 
 
+def decode_sites(src_dir):
+    """every expression that turns peer bytes into text, in the functions the model covers: (file, function, receiver.decode(...) text).
+    The model takes decoding to be a FUNCTION of the line (bytes.decode: no state survives the call, none is shared between sessions);
+    any other way of decoding (a stored codec object, an incremental decoder ...) shows up here as a different text or as a missing site"""
+    wanted = {"server.py": ["parse_command"], "client.py": ["parse_line", "parse_list_line_unix", "parse_list_line_windows", "parse_mlsx_line"]}
+    out = []
+    for fname, funcs in wanted.items():
+        tree = ast.parse((Path(src_dir) / fname).read_text())
+        for fn in funcs:
+            f = find_func(tree, fn)
+            calls = [n for n in ast.walk(f) if isinstance(n, ast.Call)
+                     and ((isinstance(n.func, ast.Attribute) and "decode" in n.func.attr.lower())
+                          or (isinstance(n.func, ast.Name) and "decode" in n.func.id.lower()))]
+            outer = calls
+            if len(outer) != 1:
+                raise Unclassified(f"{fname}:{fn}: expected exactly one decoding call, found {[src(c) for c in outer]}")
+            out.append((fname, fn, src(outer[0])))
+    return out
+
+
 def generate(src_dir):
     path = Path(src_dir) / "client.py"
     tree = ast.parse(path.read_text())
@@ -272,4 +292,7 @@ def generate(src_dir):
     out.append(f"Definition mlsx_partition_targets : list Z := {T(mlsx_targets)}.")
     out.append(f"Definition mlsx_name_guard : list Z := {T(g_mlsx)}.")
     out.append(f"Definition lister_type_guard : list Z := {T(g_type)}.")
+    out.append("\n(* how peer bytes become text: (file, function, decoding call) *)")
+    out.append("Definition decode_sites : list (list Z * list Z * list Z) := "
+               + emit.lst([f"({T(a)}, {T(b)}, {T(c)})" for a, b, c in decode_sites(src_dir)]) + ".")
     return "\n".join(out) + "\n"
